@@ -16,6 +16,7 @@ import (
 	"errors"
 	"fmt"
 	"math/big"
+	"os"
 	"sort"
 	"time"
 
@@ -202,7 +203,8 @@ type runner struct {
 	tags             map[string]bool
 	fails            []string
 	maxPooled        int
-	sawKnownGap      bool
+	tainted          [maxAccts]bool // a Reset moved the state nonce below the account's pending txs (guard of C41_pending_gapless)
+	strict           bool           // C41_STRICT=1: report the two refuted clauses as oracle failures too
 }
 
 func (r *runner) fail(format string, a ...interface{}) {
@@ -294,8 +296,9 @@ func (r *runner) oracle(d *legacypool.VerifDump, head *blockSpec, afterCycle boo
 					r.fail("pending tx of account %d signed by someone else", i)
 				}
 				if tx.Nonce() != stNonce+uint64(k) {
-					if k > 0 && p.Txs[0].Nonce() == stNonce {
-						r.sawKnownGap = true
+					if r.tainted[i] && !r.strict {
+						r.tags["finding_gap"] = true // C41_pending_gapless_refuted: outside the theorem's guard
+						break
 					}
 					r.fail("pending_gapless: account %d pending nonces %v, state nonce %d", i, nonceList(p.Txs), stNonce)
 					break
@@ -326,7 +329,7 @@ func (r *runner) oracle(d *legacypool.VerifDump, head *blockSpec, afterCycle boo
 				r.fail("pending list not strict")
 			}
 		}
-		if r.pool.Nonce(a) != stNonce+uint64(len(txsOf(d.Pending[a]))) {
+		if r.pool.Nonce(a) != stNonce+uint64(len(txsOf(d.Pending[a]))) && (!r.tainted[i] || r.strict) {
 			r.fail("pending nonce of account %d is %d, want state nonce %d + %d pending", i, r.pool.Nonce(a), stNonce, len(txsOf(d.Pending[a])))
 		}
 		if q := d.Queue[a]; q != nil {
@@ -434,6 +437,12 @@ func (r *runner) checkBump(pre *legacypool.VerifDump, nt *types.Transaction, fro
 			}
 			if nt.GasFeeCap().Cmp(old.GasFeeCap()) <= 0 || nt.GasTipCap().Cmp(old.GasTipCap()) <= 0 ||
 				nt.GasFeeCap().Cmp(thr(old.GasFeeCap())) < 0 || nt.GasTipCap().Cmp(thr(old.GasTipCap())) < 0 {
+				if uint64(pre.Slots+legacypool.VerifNumSlots(nt)) > r.cfg.GlobalSlots+r.cfg.GlobalQueue && !r.strict {
+					// the pool was full: the old tx was evicted as the cheapest one and the new one
+					// queued afresh (C41_replacement_requires_bump_refuted); outside the theorem's guard
+					r.tags["finding_bump_evict"] = true
+					continue
+				}
 				r.fail("replacement_requires_bump: tx %d (cap %v tip %v) replaced tx %d (cap %v tip %v) with bump %d%%",
 					r.idOf[nt.Hash()], nt.GasFeeCap(), nt.GasTipCap(), r.idOf[old.Hash()], old.GasFeeCap(), old.GasTipCap(), r.bump)
 			}
@@ -454,6 +463,7 @@ func run(c Sx) (res Result) {
 	}
 	r := &runner{bump: conf[0], naccts: int(conf[5]), txs: map[uint64]*types.Transaction{}, specOf: map[uint64]*txSpec{},
 		idOf: map[common.Hash]uint64{}, hdrOf: map[uint64]*types.Header{}, bspec: map[uint64]*blockSpec{}, tags: map[string]bool{}}
+	r.strict = os.Getenv("C41_STRICT") == "1"
 	if r.naccts < 1 || r.naccts > maxAccts {
 		panic("hxlib: account count out of range")
 	}
@@ -592,6 +602,12 @@ func run(c Sx) (res Result) {
 					r.tags["nonce_regress"] = true
 				}
 			}
+			for i := 0; i < r.naccts; i++ {
+				if p := pre.Pending[addrs[i]]; p != nil && len(p.Txs) > 0 && nb.nonces[i] < p.Txs[0].Nonce() {
+					r.tainted[i] = true
+					r.tags["regress_below_pending"] = true
+				}
+			}
 			r.chain.head = newHdr
 			r.pool.Reset(headHdr, newHdr)
 			head, headHdr = nb, newHdr
@@ -617,7 +633,10 @@ func run(c Sx) (res Result) {
 				fresh = false
 			}
 		}
-		if fresh && uint64(nq) == r.cfg.GlobalQueue {
+		// SetGasTip removes txs in map order, which decides whether a queue entry (and its heartbeat)
+		// is deleted and recreated or survives; no truncation runs, all heartbeats are re-issued.
+		isTip := f[0] == 2
+		if !isTip && fresh && uint64(nq) == r.cfg.GlobalQueue {
 			obs = append(obs, L(I(99)))
 			r.tags["amb"] = true
 			break
@@ -626,7 +645,7 @@ func run(c Sx) (res Result) {
 		base := time.Now()
 		k := 0
 		for i := 0; i < r.naccts; i++ {
-			if b, ok := d.Beats[addrs[i]]; ok && !b.Before(t0) {
+			if b, ok := d.Beats[addrs[i]]; ok && (isTip || !b.Before(t0)) {
 				k++
 				nb := base.Add(time.Duration(k))
 				r.pool.VerifSetBeat(addrs[i], nb)
